@@ -59,12 +59,17 @@ def run_one(sdir, checks=None, verbose=True):
         res["tests"] = {"exit": code, "passed": int(m.group(1)) if m else 0}
         # demos expect to live in <tree>/OUT/ (they put their grand-parent directory on sys.path)
         os.makedirs(os.path.join(scratch, "OUT"), exist_ok=True)
+        helpers = [f for f in glob.glob(os.path.join(sdir, "*.py")) if os.path.basename(f) != os.path.basename(demo)]
+        for f in helpers:  # shared helper modules some demos import
+            shutil.copy(f, os.path.join(scratch, "OUT", os.path.basename(f)))
         shutil.copy(demo, os.path.join(scratch, "OUT", "demo.py"))
         code, out = sh([PY, "OUT/demo.py"], scratch, {"PYTHONPATH": scratch})
         res["demo_with"] = code
         clean = make_scratch(None)
         try:
             os.makedirs(os.path.join(clean, "OUT"), exist_ok=True)
+            for f in helpers:
+                shutil.copy(f, os.path.join(clean, "OUT", os.path.basename(f)))
             shutil.copy(demo, os.path.join(clean, "OUT", "demo.py"))
             code2, out2 = sh([PY, "OUT/demo.py"], clean, {"PYTHONPATH": clean})
         finally:
